@@ -493,17 +493,6 @@ def run_pure(hist):
     return {"results": res, "store": store, "args": args_at, "mode_events": mode_events}
 
 
-def strip_empty_partials(c):
-    """canonical form with EMPTY order1 / order2 dictionaries of a StateMatrix removed: out of place the attributes are
-    absent when the input carries no partial, in place an existing empty dictionary stays -- the same value"""
-    if isinstance(c, tuple):
-        if len(c) >= 2 and c[0] == "obj" and c[1] == "StateMatrix":
-            return c[:2] + tuple(strip_empty_partials(x) for x in c[2:]
-                                 if not (isinstance(x, tuple) and len(x) == 2 and x[0] in ("order1", "order2") and x[1] == ("dict",)))
-        return tuple(strip_empty_partials(x) for x in c)
-    return c
-
-
 def has_pd(op):
     import epgpy as epg
     if isinstance(op, epg.operators.PD):
@@ -522,7 +511,7 @@ def other_mode(c, step, r, store):
         r2 = op(sm, inplace=not c["inplace"])
     except Exception as e:
         r2 = Raised(e)
-    ca, cb = strip_empty_partials(canon(r)), strip_empty_partials(canon(r2))
+    ca, cb = canon(r), canon(r2)          # exact structure: an absent order1 / order2 attribute differs from an empty dictionary
     op0, sm0 = store[c["op"]], store[c["sm"]]
     plain = not isinstance(op0, epg.operators.DiffOperator)
     if not canon_close(ca, cb):
@@ -533,7 +522,20 @@ def other_mode(c, step, r, store):
                             "(in place vs out of place)" % (step, first_diff(b, a))})
     # non-differentiable operator, out of place: partials kept and transformed (Operator._apply_partial)
     rout = r2 if c["inplace"] else r
-    if plain and is_sm(sm0) and is_sm(rout) and rout is not sm0 and not isinstance(op0, epg.operators.Probe) and partials_of(sm0):
+    # a MultiOperator called on a state is the composition of its members, each with its own full semantics
+    if isinstance(op0, epg.operators.MultiOperator) and is_sm(sm0) and is_sm(rout):
+        try:
+            exp = copy.deepcopy(sm0)
+            for m in copy.deepcopy(op0).operators:
+                exp = m(exp)
+            if not canon_close(canon(exp), canon(rout)):
+                out.append({"sig": {"site": "MultiOperator.__call__", "why": "differs-from-members-in-turn"}, "step": step, "kind": "mode", "obj": c["sm"],
+                            "what": "call %d: a multi-operator applied out of place differs from its members applied one after the other, "
+                                    "first difference at %s" % (step, first_diff(canon(exp), canon(rout)))})
+        except Exception:
+            pass
+    if plain and is_sm(sm0) and is_sm(rout) and rout is not sm0 and not isinstance(op0, (epg.operators.Probe, epg.operators.MultiOperator)) \
+            and partials_of(sm0):
         why = None
         got = {(nm, k): v for nm, k, v in partials_of(rout)}
         for nm, k, part in partials_of(sm0):
@@ -1001,7 +1003,7 @@ def gen_synth(rng):
                     s = meta[c["sm"]]; o = meta[c["op"]]
                     if s["bits"] + o["cost"] > 50:
                         continue
-                    addc(dict(c), kind="sm", bits=s["bits"] + o["cost"], attr=(o.get("diff") and not o.get("multi")))
+                    addc(dict(c), kind="sm", bits=s["bits"] + o["cost"], attr=True)
                 elif c["do"] == "simulate":
                     b = meta[c["init"]]["bits"] if c.get("init") is not None else 4
                     if b + meta[c["seq"]]["cost"] > 50:
@@ -1016,8 +1018,8 @@ def gen_synth(rng):
                 continue
             inplace = rng.random() < 0.3
             mo, ms = meta[o], meta[s]
-            if mo.get("multi"):
-                attr = ms["attr"] if inplace else False
+            if True:        # every operator call returns a state that carries order1 / order2 (possibly empty)
+                attr = True
             elif mo.get("diff"):
                 attr = True
             else:
@@ -1207,7 +1209,7 @@ def gen_real(rng):
             o, s = rng.choice(refs_of("op")), rng.choice(refs_of("sm"))
             mo, ms = meta[o], meta[s]
             inplace = rng.random() < 0.3
-            attr = True if (mo.get("diff") and not mo.get("multi")) else (ms["attr"] if inplace else False)
+            attr = True         # every operator call returns a state that carries order1 / order2 (possibly empty)
             if inplace:
                 ms["attr"] = attr
                 addc({"do": "apply", "op": o, "sm": s, "inplace": True}, kind="placeholder")
@@ -1283,7 +1285,7 @@ def gen_real(rng):
             if rng.random() < 0.5:      # ... followed by an operator applied in place to the probed state
                 o = rng.choice(refs_of("op"))
                 mo, ms = meta[o], meta[s]
-                ms["attr"] = True if (mo.get("diff") and not mo.get("multi")) else ms["attr"]
+                ms["attr"] = True
                 addc({"do": "apply", "op": o, "sm": s, "inplace": True}, kind="placeholder")
     return {"kind": "real:" + fam, "objects": objs, "calls": calls}
 
@@ -1574,7 +1576,7 @@ def hash_sweep(ctx, hists, seeds):
 # in-place vs out-of-place on the implementation (target of inplace_equals_outofplace*)
 # =====================================================================================================
 def ipoop_case(first, second, with_partials):
-    """(value of op(copy(sm), inplace=True), value of op(sm), op is a plain operator); empty order1/order2 == absent"""
+    """(value of op(copy(sm), inplace=True), value of op(sm), op is a plain operator)"""
     import epgpy as epg
     env = {"epg": epg, "np": np}
     sm = epg.StateMatrix()
@@ -1584,7 +1586,7 @@ def ipoop_case(first, second, with_partials):
     op = eval(second, env)
     a = op(copy.deepcopy(sm), inplace=True)
     b = op(sm)
-    return strip_empty_partials(canon(a)), strip_empty_partials(canon(b)), not isinstance(op, epg.operators.DiffOperator)
+    return canon(a), canon(b), not isinstance(op, epg.operators.DiffOperator)
 
 
 def inplace_vs_outofplace(ctx, rng, n):
